@@ -6,7 +6,9 @@ B(lb, ub) == Lit("bounds", <<lb, ub>>, <<2>>)
 MC_BaseCalls == <<
     Call("MkVec", 0, 0, "continuous", B(NoneQ, NoneQ), 3, 0, 0, "x"),
     Call("MkVec", 0, 0, "continuous", B(NoneQ, NoneQ), 2, 0, 0, "y"),
-    Call("MkVar", 0, 0, "continuous", B(NoneQ, NoneQ), 0, 0, 0, "s")
+    Call("MkVar", 0, 0, "continuous", B(NoneQ, NoneQ), 0, 0, 0, "s"),
+    Call("Slice", 1, 0, "", NoLit, NoneI, NoneI, -1, ""),
+    Call("Slice", 1, 0, "", NoLit, NoneI, NoneI, NoneI, "")
   >>
 MC_AllNames == {<<"s">>, <<"x", 0>>, <<"x", 1>>, <<"x", 2>>, <<"y", 0>>, <<"y", 1>>}
 MC_En == {"Index", "Slice", "VBin", "VBinLit", "VNeg", "VFn", "Sum", "Dot", "LinComb", "Norm", "SBin"}
@@ -15,7 +17,8 @@ MC_ScalarLits == {LitS("int", Q(2, 1)), LitS("float", Q(5, 2)), LitS("npf64", Q(
 MC_ArrayLits == {Lit("arr", <<Q(1,1), Q(2,1), Q(3,1)>>, <<3>>), Lit("arr", <<Q(4,1), Q(-1,1)>>, <<2>>),
                  Lit("list", <<Q(1,1), Q(-2,1), Q(3,1)>>, <<3>>), Lit("arri", <<Q(2,1), Q(5,1)>>, <<2>>),
                  Lit("arr", <<Q(1,1), Q(2,1), Q(3,1), Q(4,1), Q(5,1), Q(6,1)>>, <<2, 3>>),
-                 Lit("arr", <<Q(1,1), Q(2,1), Q(3,1), Q(4,1)>>, <<2, 2>>)}
+                 Lit("arr", <<Q(1,1), Q(2,1), Q(3,1), Q(4,1)>>, <<2, 2>>),
+                 Lit("arr", <<Q(2,1), Q(-1,1), Q(0,1), Q(1,1), Q(3,1), Q(1,2), Q(5,1), Q(-2,1), Q(1,1)>>, <<3, 3>>)}
 MC_Slices == { <<NoneI, NoneI, NoneI>>, <<0, 2, NoneI>>, <<1, 3, NoneI>>, <<NoneI, NoneI, -1>>, <<NoneI, NoneI, 2>>,
                <<1, NoneI, NoneI>>, <<-2, NoneI, NoneI>>, <<2, 0, -1>>, <<3, NoneI, NoneI>>, <<NoneI, -1, NoneI>> }
 MC_Indices == {0, -1, 1, 5, -3}
